@@ -545,11 +545,20 @@ func Leaks() string {
 	buf := make([]byte, 1<<20)
 	buf = buf[:runtime.Stack(buf, true)]
 	var out []string
+	mine := ""
 	for i, g := range strings.Split(string(buf), "\n\n") {
-		if i == 0 {
-			continue // the calling goroutine
-		}
 		head, _, _ := strings.Cut(g, "\n")
+		if i == 0 {
+			// the calling goroutine: remember which bubble this is (goroutines leaked by earlier
+			// executions of the same worker process belong to other bubbles)
+			if j := strings.Index(head, "synctest bubble "); j >= 0 {
+				mine = strings.TrimRight(head[j:], "]:")
+			}
+			continue
+		}
+		if mine != "" && !strings.Contains(head, mine+"]") {
+			continue
+		}
 		if !strings.Contains(head, "synctest bubble") || strings.Contains(head, "synctest.Run") || strings.Contains(g, "testing/synctest.testingSynctestTest(") {
 			continue
 		}
